@@ -6,7 +6,6 @@ use cosmwasm_std::{coin, Coin, Decimal};
 use crate::gen::*;
 use crate::proto::*;
 use crate::rng::Rng;
-use crate::streams::hist::Hist;
 use crate::world::*;
 use crate::Out;
 
@@ -24,7 +23,7 @@ fn opt_dec_str(r: &mut Rng, choices: &[Option<u128>]) -> String {
 fn funds_str(cs: &[Coin]) -> String { coins_str(cs) }
 
 pub struct Gen<'a> {
-    pub h: Hist,
+    pub run: crate::streams::hist::Runner,
     pub r: &'a mut Rng,
     pub o: &'a mut Out,
     pub ops: u64,
@@ -32,23 +31,17 @@ pub struct Gen<'a> {
 
 impl<'a> Gen<'a> {
     pub fn emit(&mut self, line: String) -> String {
-        let res = self.h.exec_line(&line);
-        self.o.line(&line, &res);
         self.ops += 1;
-        if !line.starts_with("fault") {
-            let s = self.h.exec_line("snap");
-            self.o.line("snap", &s);
-        }
-        res
+        self.run.step(&line, self.o)
     }
 
-    fn pools(&self) -> Vec<mantra_dex_std::pool_manager::PoolInfoResponse> { self.h.all_pools() }
+    fn pools(&self) -> Vec<mantra_dex_std::pool_manager::PoolInfoResponse> { self.run.h.all_pools() }
 
     fn creation_funds(&mut self) -> Vec<Coin> {
         // pool creation fee + token factory fees, aggregated by denom
-        let cfgq: mantra_dex_std::pool_manager::Config = self.h.w.app.wrap()
-            .query_wasm_smart(self.h.w.a("pm"), &mantra_dex_std::pool_manager::QueryMsg::Config {}).unwrap();
-        let mut v: Vec<Coin> = self.h.w.cfg.tf_fees.clone();
+        let cfgq: mantra_dex_std::pool_manager::Config = self.run.h.w.app.wrap()
+            .query_wasm_smart(self.run.h.w.a("pm"), &mantra_dex_std::pool_manager::QueryMsg::Config {}).unwrap();
+        let mut v: Vec<Coin> = self.run.h.w.cfg.tf_fees.clone();
         let f = cfgq.pool_creation_fee;
         if let Some(x) = v.iter_mut().find(|c| c.denom == f.denom) { x.amount += f.amount; } else if !f.amount.is_zero() { v.push(f); }
         v.sort_by(|a, b| a.denom.cmp(&b.denom));
@@ -59,13 +52,13 @@ impl<'a> Gen<'a> {
         let stable = self.r.chance(1, 2);
         let p = gen_pool(self.r, stable);
         let mut funds = self.creation_funds();
-        match self.r.below(12) {
+        match self.r.below(30) {
             0 => { funds.pop(); }
             1 => { if let Some(c) = funds.first_mut() { c.amount += cosmwasm_std::Uint128::one(); } }
-            2 => { funds.push(coin(5, "uluna")); }
+            2 => { if !funds.iter().any(|c| c.denom == "uluna") { funds.push(coin(5, "uluna")); funds.sort_by(|a, b| a.denom.cmp(&b.denom)); } }
             _ => {}
         }
-        let id = match self.r.below(5) { 0 => "-".to_string(), 1 => "bad id!".replace(' ', "_"), _ => format!("{}{}", ["a", "b", "c", "x.y", "pool/1"][self.r.below(5) as usize], self.r.below(4)) };
+        let id = match self.r.below(20) { 0 | 1 | 2 | 3 => "-".to_string(), 4 => "bad id!".replace(' ', "_"), _ => format!("{}{}", ["a", "b", "c", "x.y", "pool/1"][self.r.below(5) as usize], self.r.below(4)) };
         let (ty, amp) = match p.pool_type { mantra_dex_std::pool_manager::PoolType::ConstantProduct => ("cp", 0), mantra_dex_std::pool_manager::PoolType::StableSwap { amp } => ("ss", if self.r.chance(1, 30) { 0 } else { amp }) };
         let mut s = format!("{} {} {}", ty, amp, p.asset_denoms.len());
         for (i, d) in p.asset_denoms.iter().enumerate() { s += &format!(" {} {}", d, p.asset_decimals[i]); }
@@ -76,11 +69,20 @@ impl<'a> Gen<'a> {
     }
 
     fn slip(&mut self) -> String {
-        opt_dec_str(self.r, &[None, None, Some(10_000_000_000_000_000), Some(500_000_000_000_000_000), Some(1_000_000_000_000_000_000), Some(0), Some(1_000_000_000_000_000_001), Some(100_000_000_000_000_000)])
+        if self.r.chance(5, 6) {
+            opt_dec_str(self.r, &[None, Some(500_000_000_000_000_000), Some(500_000_000_000_000_000), Some(1_000_000_000_000_000_000), Some(100_000_000_000_000_000)])
+        } else {
+            opt_dec_str(self.r, &[None, Some(10_000_000_000_000_000), Some(0), Some(1_000_000_000_000_000_001), Some(1_000_000_000_000_000)])
+        }
+    }
+    /// deposit tolerance: none most of the time (stableswap pools reject any realistic one, F-11)
+    fn liq_slip(&mut self, stable: bool) -> String {
+        if stable { if self.r.chance(1, 8) { self.slip() } else { "-".into() } }
+        else if self.r.chance(1, 2) { "-".into() } else { self.slip() }
     }
 
     fn receiver(&mut self, sender: &str) -> String {
-        match self.r.below(10) { 0 => SENDERS[self.r.below(4) as usize].to_string(), 1 => sender.to_string(), 2 => "bogus".into(), 3 => if self.r.chance(1, 4) { "pm".into() } else { "-".into() }, _ => "-".into() }
+        match self.r.below(16) { 0 => SENDERS[self.r.below(4) as usize].to_string(), 1 => sender.to_string(), 2 => "bogus".into(), _ => "-".into() }
     }
 
     pub fn op_provide(&mut self) {
@@ -122,7 +124,8 @@ impl<'a> Gen<'a> {
             1 => ((DAY * (1 + self.r.below(300))).to_string(), format!("l{}", self.r.below(3))),
             _ => ("-".to_string(), "-".to_string()),
         };
-        let ls = self.slip();
+        let stable = !matches!(pi.pool_type, mantra_dex_std::pool_manager::PoolType::ConstantProduct);
+        let ls = self.liq_slip(stable);
         let ss = self.slip();
         let recv = self.receiver(sender);
         // funds carry canonical denoms (LP denoms never here)
@@ -140,12 +143,17 @@ impl<'a> Gen<'a> {
         let mut ai = self.r.below(n as u64) as usize;
         if ai == oi && !self.r.chance(1, 25) { ai = (oi + 1) % n; }
         let res = pi.assets[oi].amount.u128();
-        let amt = match self.r.below(6) { 0 => gen_offer(self.r, res), 1 => res / 1000 + 1, 2 => res / 100 + 1, 3 => res / 20 + 1, _ => res / 500 + 1 + self.r.below(1000) as u128 };
+        let amt = match self.r.below(10) { 0 => gen_offer(self.r, res), 1 => res / 1000 + 1, 2 => res / 100 + 1, 3 => res / 20 + 1, 4 => res / 100_000 + 1, _ => res / 5000 + 1 + self.r.below(1000) as u128 };
         let sender = pick_user(self.r);
-        let belief = opt_dec_str(self.r, &[None, None, None, Some(1_000_000_000_000_000_000), Some(2_000_000_000_000_000_000), Some(500_000_000_000_000_000), Some(0)]);
+        let belief = if self.r.chance(4, 5) { "-".to_string() } else { opt_dec_str(self.r, &[Some(1_000_000_000_000_000_000), Some(2_000_000_000_000_000_000), Some(500_000_000_000_000_000), Some(0), Some(1_000_000)]) };
         let ms = self.slip();
         let recv = self.receiver(sender);
         let funds = if amt == 0 { vec![] } else { vec![coin(amt, pi.assets[oi].denom.clone())] };
+        // C12: the quote an instant before the swap
+        let q: Result<mantra_dex_std::pool_manager::SimulationResponse, _> = self.run.h.w.app.wrap().query_wasm_smart(
+            self.run.h.w.a("pm"), &mantra_dex_std::pool_manager::QueryMsg::Simulation {
+                offer_asset: coin(amt, pi.assets[oi].denom.clone()), ask_asset_denom: pi.assets[ai].denom.clone(), pool_identifier: pi.pool_identifier.clone() });
+        self.run.ms.quote = q.ok().map(|q| (q.return_amount.u128(), q.protocol_fee_amount.u128(), q.swap_fee_amount.u128(), q.burn_fee_amount.u128(), q.extra_fees_amount.u128()));
         self.emit(format!("tx {} {} pm swap {} {} {} {} {}", sender, funds_str(&funds), pi.pool_identifier, pi.assets[ai].denom, belief, ms, recv));
     }
 
@@ -154,12 +162,12 @@ impl<'a> Gen<'a> {
         let live: Vec<_> = pools.iter().filter(|p| !p.total_share.amount.is_zero()).collect();
         if live.is_empty() { return self.op_provide(); }
         let p = live[self.r.below(live.len() as u64) as usize];
-        let lp = self.h.w.cd(&p.pool_info.lp_denom);
+        let lp = self.run.h.w.cd(&p.pool_info.lp_denom);
         // a holder
-        let holders: Vec<&str> = ["u1", "u2", "u3", "u4", "owner", "out"].into_iter().filter(|u| self.h.w.balance(u, &lp) > 0).collect();
-        let sender = if holders.is_empty() || self.r.chance(1, 12) { pick_user(self.r) } else { holders[self.r.below(holders.len() as u64) as usize] };
-        let bal = self.h.w.balance(sender, &lp);
-        let amt = match self.r.below(6) { 0 => bal, 1 => bal / 2, 2 => 1, 3 => bal / 1000 + 1, 4 => bal.saturating_add(1), _ => bal / 3 + 1 };
+        let holders: Vec<&str> = ["u1", "u2", "u3", "u4", "owner", "out"].into_iter().filter(|u| self.run.h.w.balance(u, &lp) > 0).collect();
+        let sender = if holders.is_empty() || self.r.chance(1, 25) { pick_user(self.r) } else { holders[self.r.below(holders.len() as u64) as usize] };
+        let bal = self.run.h.w.balance(sender, &lp);
+        let amt = match self.r.below(12) { 0 => bal, 1 => bal / 2, 2 => 1, 3 => bal / 1000 + 1, 4 => bal.saturating_add(1), 5 => bal / 1_000_000 + 1, _ => (bal / 3 + 1).min(bal) };
         let funds = if amt == 0 { vec![] } else { vec![coin(amt, lp)] };
         self.emit(format!("tx {} {} pm withdraw {}", sender, funds_str(&funds), p.pool_info.pool_identifier));
     }
@@ -186,9 +194,9 @@ impl<'a> Gen<'a> {
         }
         if ops.is_empty() { return self.op_swap(); }
         if self.r.chance(1, 20) && ops.len() > 1 { ops[1].0 = "uom".into(); } // non-consecutive
-        let amt = offer_res / [1000u128, 200, 50, 10][self.r.below(4) as usize] + 1;
+        let amt = offer_res / [100_000u128, 10_000, 1000, 200, 20][self.r.below(5) as usize] + 1;
         let sender = pick_user(self.r);
-        let mr = match self.r.below(4) { 0 => "1".to_string(), 1 => u128::MAX.to_string(), _ => "-".into() };
+        let mr = match self.r.below(8) { 0 => "1".to_string(), 1 => u128::MAX.to_string(), _ => "-".into() };
         let ms = self.slip();
         let recv = self.receiver(sender);
         let mut s = format!("{}", ops.len());
@@ -212,7 +220,7 @@ impl<'a> Gen<'a> {
 
     pub fn op_own(&mut self, contract: &str) {
         let sender = match self.r.below(4) { 0 => "owner", 1 => "u1", 2 => "u2", _ => pick_user(self.r) };
-        let now = self.h.w.now_ns();
+        let now = self.run.h.w.now_ns();
         let act = match self.r.below(5) {
             0 | 1 => format!("transfer {} {}", ["u1", "u2", "owner", "bogus"][self.r.below(4) as usize], match self.r.below(3) { 0 => "-".to_string(), 1 => (now + DAY * 1_000_000_000).to_string(), _ => (now + 1).to_string() }),
             2 | 3 => "accept".to_string(),
@@ -239,16 +247,16 @@ impl<'a> Gen<'a> {
     // ------------------------------------------------------------------ farm manager ops
 
     fn lp_holders(&self, lp: &str) -> Vec<&'static str> {
-        ["u1", "u2", "u3", "u4", "owner"].into_iter().filter(|u| self.h.w.balance(u, lp) > 0).collect()
+        ["u1", "u2", "u3", "u4", "owner"].into_iter().filter(|u| self.run.h.w.balance(u, lp) > 0).collect()
     }
 
     fn some_lp(&mut self) -> Option<String> {
-        if self.h.lps.is_empty() { None } else { Some(self.h.lps[self.r.below(self.h.lps.len() as u64) as usize].clone()) }
+        if self.run.h.lps.is_empty() { None } else { Some(self.run.h.lps[self.r.below(self.run.h.lps.len() as u64) as usize].clone()) }
     }
 
     pub fn cur_epoch(&self) -> u64 {
-        let r: Result<mantra_dex_std::epoch_manager::EpochResponse, _> = self.h.w.app.wrap()
-            .query_wasm_smart(self.h.w.a("em"), &mantra_dex_std::epoch_manager::QueryMsg::CurrentEpoch {});
+        let r: Result<mantra_dex_std::epoch_manager::EpochResponse, _> = self.run.h.w.app.wrap()
+            .query_wasm_smart(self.run.h.w.a("em"), &mantra_dex_std::epoch_manager::QueryMsg::CurrentEpoch {});
         r.map(|e| e.epoch.id).unwrap_or(0)
     }
 
@@ -256,7 +264,7 @@ impl<'a> Gen<'a> {
         let Some(lp) = self.some_lp() else { return self.op_provide() };
         let holders = self.lp_holders(&lp);
         let sender = if holders.is_empty() || self.r.chance(1, 15) { pick_user(self.r) } else { holders[self.r.below(holders.len() as u64) as usize] };
-        let bal = self.h.w.balance(sender, &lp);
+        let bal = self.run.h.w.balance(sender, &lp);
         let amt = match self.r.below(6) { 0 => 1 + self.r.below(3) as u128, 1 => bal / 2, 2 => bal / 10 + 1, 3 => bal / 1000 + 1, _ => bal / 20 + 1 };
         let dur = match self.r.below(8) { 0 => DAY, 1 => 31_556_926, 2 => 15_778_463, 3 => DAY - 1, 4 => 31_556_927, _ => DAY * (1 + self.r.below(360)) + self.r.below(1000) };
         let id = match self.r.below(4) { 0 => "-".to_string(), _ => format!("{}{}", sender, self.r.below(4)) };
@@ -265,16 +273,16 @@ impl<'a> Gen<'a> {
         self.emit(format!("tx {} {} fm createpos {} {} {}", sender, funds_str(&funds), id, dur, recv));
     }
 
-    fn positions(&self) -> Vec<mantra_dex_std::farm_manager::Position> { self.h.all_positions() }
+    fn positions(&self) -> Vec<mantra_dex_std::farm_manager::Position> { self.run.h.all_positions() }
 
     pub fn op_expand_position(&mut self) {
         let ps: Vec<_> = self.positions().into_iter().filter(|p| p.open).collect();
         if ps.is_empty() { return self.op_create_position(); }
         let p = &ps[self.r.below(ps.len() as u64) as usize];
-        let owner = self.h.w.n(p.receiver.as_str());
+        let owner = self.run.h.w.n(p.receiver.as_str());
         let sender = if self.r.chance(1, 10) { pick_user(self.r).to_string() } else { owner };
-        let lp = self.h.w.cd(&p.lp_asset.denom);
-        let bal = self.h.w.balance(&sender, &lp);
+        let lp = self.run.h.w.cd(&p.lp_asset.denom);
+        let bal = self.run.h.w.balance(&sender, &lp);
         let amt = match self.r.below(4) { 0 => 1 + self.r.below(3) as u128, 1 => bal / 10 + 1, _ => bal / 100 + 1 };
         self.emit(format!("tx {} {} fm expandpos {}", sender, funds_str(&[coin(amt, lp)]), p.identifier));
     }
@@ -283,10 +291,10 @@ impl<'a> Gen<'a> {
         let ps: Vec<_> = self.positions().into_iter().filter(|p| p.open).collect();
         if ps.is_empty() { return self.op_create_position(); }
         let p = &ps[self.r.below(ps.len() as u64) as usize];
-        let owner = self.h.w.n(p.receiver.as_str());
+        let owner = self.run.h.w.n(p.receiver.as_str());
         let sender = if self.r.chance(1, 12) { pick_user(self.r).to_string() } else { owner };
         let a = p.lp_asset.amount.u128();
-        let (d, amt) = match self.r.below(5) { 0 => ("-".to_string(), "-".to_string()), 1 => (self.h.w.cd(&p.lp_asset.denom), a.to_string()), 2 => (self.h.w.cd(&p.lp_asset.denom), (a / 2).max(1).to_string()), 3 => (self.h.w.cd(&p.lp_asset.denom), (a + 1).to_string()), _ => (self.h.w.cd(&p.lp_asset.denom), (a / 3 + 1).to_string()) };
+        let (d, amt) = match self.r.below(5) { 0 => ("-".to_string(), "-".to_string()), 1 => (self.run.h.w.cd(&p.lp_asset.denom), a.to_string()), 2 => (self.run.h.w.cd(&p.lp_asset.denom), (a / 2).max(1).to_string()), 3 => (self.run.h.w.cd(&p.lp_asset.denom), (a + 1).to_string()), _ => (self.run.h.w.cd(&p.lp_asset.denom), (a / 3 + 1).to_string()) };
         // claim first most of the time (pending rewards block closing)
         if self.r.chance(3, 4) { self.emit(format!("tx {} 0 fm claim -", sender)); }
         self.emit(format!("tx {} 0 fm closepos {} {} {}", sender, p.identifier, d, amt));
@@ -297,12 +305,12 @@ impl<'a> Gen<'a> {
         if ps.is_empty() { return self.op_create_position(); }
         let closed: Vec<_> = ps.iter().filter(|p| !p.open).collect();
         let p = if !closed.is_empty() && self.r.chance(3, 4) { closed[self.r.below(closed.len() as u64) as usize] } else { &ps[self.r.below(ps.len() as u64) as usize] };
-        let owner = self.h.w.n(p.receiver.as_str());
+        let owner = self.run.h.w.n(p.receiver.as_str());
         let sender = if self.r.chance(1, 12) { pick_user(self.r).to_string() } else { owner };
         // sometimes move time to the unlock boundary first
         if let Some(e) = p.expiring_at {
             if self.r.chance(1, 3) {
-                let now_s = self.h.w.now_ns() / 1_000_000_000;
+                let now_s = self.run.h.w.now_ns() / 1_000_000_000;
                 if e > now_s {
                     let target = match self.r.below(3) { 0 => e - 1, 1 => e, _ => e + 1 };
                     if target > now_s { self.emit(format!("advance {}", (target - now_s) * 1_000_000_000)); }
@@ -315,15 +323,15 @@ impl<'a> Gen<'a> {
 
     pub fn op_claim(&mut self) {
         let ps: Vec<_> = self.positions().into_iter().filter(|p| p.open).collect();
-        let sender = if ps.is_empty() || self.r.chance(1, 10) { pick_user(self.r).to_string() } else { self.h.w.n(ps[self.r.below(ps.len() as u64) as usize].receiver.as_str()) };
+        let sender = if ps.is_empty() || self.r.chance(1, 10) { pick_user(self.r).to_string() } else { self.run.h.w.n(ps[self.r.below(ps.len() as u64) as usize].receiver.as_str()) };
         let cur = self.cur_epoch();
         let until = match self.r.below(5) { 0 => cur.saturating_sub(self.r.below(4)).to_string(), 1 => (cur + 1).to_string(), 2 => cur.to_string(), _ => "-".to_string() };
         self.emit(format!("tx {} 0 fm claim {}", sender, until));
     }
 
     fn farm_fee_funds(&self, asset: &Coin) -> Vec<Coin> {
-        let cfg: mantra_dex_std::farm_manager::Config = self.h.w.app.wrap()
-            .query_wasm_smart(self.h.w.a("fm"), &mantra_dex_std::farm_manager::QueryMsg::Config {}).unwrap();
+        let cfg: mantra_dex_std::farm_manager::Config = self.run.h.w.app.wrap()
+            .query_wasm_smart(self.run.h.w.a("fm"), &mantra_dex_std::farm_manager::QueryMsg::Config {}).unwrap();
         let fee = cfg.create_farm_fee;
         let mut v = vec![asset.clone()];
         if fee.denom == asset.denom { v[0].amount += fee.amount; } else if !fee.amount.is_zero() { v.push(fee); }
@@ -340,34 +348,44 @@ impl<'a> Gen<'a> {
         let ad = match self.r.below(5) { 0 => lp.clone(), _ => BASE_DENOMS[self.r.below(6) as usize].to_string() };
         let aa = match self.r.below(5) { 0 => 999, 1 => 1000, _ => 1000 + self.r.below(10_000_000) as u128 };
         let sender = pick_user(self.r);
-        let have = self.h.w.balance(sender, &ad);
+        let have = self.run.h.w.balance(sender, &ad);
         let aa = if BASE_DENOMS.contains(&ad.as_str()) { aa } else { aa.min(have / 2) };
         let asset = coin(aa, ad.clone());
         let mut funds = self.farm_fee_funds(&asset);
-        match self.r.below(12) { 0 => { funds.pop(); } 1 => { funds[0].amount += cosmwasm_std::Uint128::one(); } 2 => { funds.push(coin(7, "uluna")); funds.sort_by(|a, b| a.denom.cmp(&b.denom)); } _ => {} }
+        match self.r.below(12) {
+            0 => { funds.pop(); }
+            1 => { funds[0].amount += cosmwasm_std::Uint128::one(); }
+            2 => {
+                // an unrelated extra coin (funds always carry distinct denoms, as on a real chain)
+                let extra = ["uluna", "udai", "uusdt"].into_iter().find(|d| !funds.iter().any(|c| c.denom == *d)).unwrap();
+                funds.push(coin(7, extra));
+                funds.sort_by(|a, b| a.denom.cmp(&b.denom));
+            }
+            _ => {}
+        }
         let id = match self.r.below(3) { 0 => "-".to_string(), _ => format!("f{}", self.r.below(6)) };
         self.emit(format!("tx {} {} fm createfarm {} {} {} {} {} {}", sender, funds_str(&funds), lp, start, end, ad, aa, id));
     }
 
-    fn farms(&self) -> Vec<mantra_dex_std::farm_manager::Farm> { self.h.all_farms() }
+    fn farms(&self) -> Vec<mantra_dex_std::farm_manager::Farm> { self.run.h.all_farms() }
 
     pub fn op_expand_farm(&mut self) {
         let fs = self.farms();
         if fs.is_empty() { return self.op_create_farm(); }
         let f = &fs[self.r.below(fs.len() as u64) as usize];
-        let owner = self.h.w.n(f.owner.as_str());
+        let owner = self.run.h.w.n(f.owner.as_str());
         let sender = if self.r.chance(1, 8) { pick_user(self.r).to_string() } else { owner };
         let rate = f.emission_rate.u128().max(1);
         let amt = match self.r.below(4) { 0 => rate * (1 + self.r.below(5) as u128) + 1, _ => rate * (1 + self.r.below(5) as u128) };
-        let ad = self.h.w.cd(&f.farm_asset.denom);
-        self.emit(format!("tx {} {} fm expandfarm {} - - {} {} {}", sender, funds_str(&[coin(amt, ad.clone())]), self.h.w.cd(&f.lp_denom), ad, amt, f.identifier));
+        let ad = self.run.h.w.cd(&f.farm_asset.denom);
+        self.emit(format!("tx {} {} fm expandfarm {} - - {} {} {}", sender, funds_str(&[coin(amt, ad.clone())]), self.run.h.w.cd(&f.lp_denom), ad, amt, f.identifier));
     }
 
     pub fn op_close_farm(&mut self) {
         let fs = self.farms();
         if fs.is_empty() { return self.op_create_farm(); }
         let f = &fs[self.r.below(fs.len() as u64) as usize];
-        let owner = self.h.w.n(f.owner.as_str());
+        let owner = self.run.h.w.n(f.owner.as_str());
         let sender = match self.r.below(6) { 0 => "owner".to_string(), 1 => pick_user(self.r).to_string(), _ => owner };
         self.emit(format!("tx {} 0 fm closefarm {}", sender, f.identifier));
     }
@@ -411,13 +429,12 @@ pub fn gen_cfg(r: &mut Rng) -> WorldCfg {
 /// pool-manager centred history
 pub fn gen_pm_case(r: &mut Rng, id: u64, len: u64, o: &mut Out) {
     let cfg = gen_cfg(r);
-    let h = Hist::new(cfg);
+    let mut run = crate::streams::hist::Runner::new(cfg);
     o.raw(&format!("begin {}", id));
-    let il = h.init_line();
+    let il = run.h.init_line();
     o.line(&il, "ok");
-    let mut g = Gen { h, r, o, ops: 0 };
-    let s = g.h.exec_line("snap");
-    g.o.line("snap", &s);
+    run.first_snap(o);
+    let mut g = Gen { run, r, o, ops: 0 };
     // a couple of pools first
     g.op_create_pool();
     g.op_create_pool();
@@ -443,13 +460,12 @@ pub fn gen_pm_case(r: &mut Rng, id: u64, len: u64, o: &mut Out) {
 /// farm-manager centred history
 pub fn gen_fm_case(r: &mut Rng, id: u64, len: u64, o: &mut Out) {
     let cfg = gen_cfg(r);
-    let h = Hist::new(cfg);
+    let mut run = crate::streams::hist::Runner::new(cfg);
     o.raw(&format!("begin {}", id));
-    let il = h.init_line();
+    let il = run.h.init_line();
     o.line(&il, "ok");
-    let mut g = Gen { h, r, o, ops: 0 };
-    let s = g.h.exec_line("snap");
-    g.o.line("snap", &s);
+    run.first_snap(o);
+    let mut g = Gen { run, r, o, ops: 0 };
     // pools with liquidity held by several users
     g.op_create_pool();
     g.op_create_pool();
